@@ -33,14 +33,42 @@ def split_sentences_no_min_length(text: str) -> list[str]:
     return split_sentences_regex(text, min_length=0)
 
 
-_line_break_re = re.compile(r"\\\n|  \n")
+_line_break_re = re.compile(r"(\\+)\n|  \n")
 
 
 def split_markdown_hard_breaks(text: str) -> list[str]:
     """
-    Split text by explicit Markdown line breaks.
+    Split text by explicit Markdown line breaks. An even run of backslashes before a
+    newline is escaped backslashes, not a line break.
     """
-    return _line_break_re.split(text)
+    segments: list[str] = []
+    pos = 0
+    for match in _line_break_re.finditer(text):
+        backslashes = match.group(1)
+        if backslashes is None:
+            end = match.start()
+        elif len(backslashes) % 2 == 1:
+            end = match.end(1) - 1
+        else:
+            continue
+        segments.append(text[pos:end])
+        pos = match.end()
+    segments.append(text[pos:])
+    return segments
+
+
+def _protect_trailing_backslashes(wrapped: str, is_last: bool) -> str:
+    """
+    A literal backslash that wrapping leaves at the end of a line (as in `a \\ b` at a narrow
+    width) would become a hard line break, so it is written as an escaped backslash.
+    """
+    lines = wrapped.split("\n")
+    for i, line in enumerate(lines):
+        if i == len(lines) - 1 and is_last:
+            break
+        if (len(line) - len(line.rstrip("\\"))) % 2 == 1:
+            lines[i] = line + "\\"
+    return "\n".join(lines)
 
 
 def _add_markdown_hard_break_handling(base_wrapper: LineWrapper) -> LineWrapper:
@@ -58,7 +86,9 @@ def _add_markdown_hard_break_handling(base_wrapper: LineWrapper) -> LineWrapper:
             return ""
         # Handle single segment (no hard line breaks).
         if len(segments) == 1:
-            return base_wrapper(text, initial_indent, subsequent_indent)
+            return _protect_trailing_backslashes(
+                base_wrapper(text, initial_indent, subsequent_indent), is_last=True
+            )
 
         wrapped_segments: list[str] = []
 
@@ -67,7 +97,9 @@ def _add_markdown_hard_break_handling(base_wrapper: LineWrapper) -> LineWrapper:
             is_last = i == len(segments) - 1
 
             cur_initial_indent = initial_indent if is_first else subsequent_indent
-            wrapped_segment = base_wrapper(segment, cur_initial_indent, subsequent_indent)
+            wrapped_segment = _protect_trailing_backslashes(
+                base_wrapper(segment, cur_initial_indent, subsequent_indent), is_last
+            )
             if is_last:
                 wrapped_segments.append(wrapped_segment)
             else:
